@@ -87,8 +87,15 @@ class P(object):
         return 1
 
 
-KEYWORDS = {'module', 'endmodule', 'input', 'output', 'reg', 'wire', 'assign', 'always', 'begin', 'end', 'if',
-            'else', 'initial', 'posedge', 'or', 'integer', 'for'}
+# IEEE 1364-2001 Annex B (typed from the standard, independently of the exporter's own list)
+KEYWORDS = set("""always and assign automatic begin buf bufif0 bufif1 case casex casez cell cmos config deassign default
+defparam design disable edge else end endcase endconfig endfunction endgenerate endmodule endprimitive endspecify
+endtable endtask event for force forever fork function generate genvar highz0 highz1 if ifnone incdir include initial
+inout input instance integer join large liblist library localparam macromodule medium module nand negedge nmos nor
+noshowcancelled not notif0 notif1 or output parameter pmos posedge primitive pull0 pull1 pulldown pullup
+pulsestyle_onevent pulsestyle_ondetect rcmos real realtime reg release repeat rnmos rpmos rtran rtranif0 rtranif1
+scalared showcancelled signed small specify specparam strong0 strong1 supply0 supply1 table task time tran tranif0
+tranif1 tri tri0 tri1 triand trior trireg unsigned use vectored wait wand weak0 weak1 while wire wor xnor xor""".split())
 
 
 def literal(tok):
@@ -210,6 +217,8 @@ def parse_module(text):
     mems = {}
 
     def declare(kind, name, w):
+        if name in KEYWORDS:
+            raise VParseError('reserved word %s declared as an identifier' % name)
         if name in declared or name in mems:
             raise VParseError('%s declared twice' % name)
         declared[name] = (kind, w)
@@ -398,6 +407,8 @@ def parse_testbench(text):
         w = p.rng()
         n = p.ident()
         p.expect(';')
+        if n in KEYWORDS:
+            raise VParseError('reserved word %s declared as an identifier' % n)
         if n in tb['regs'] or n in tb['wires']:
             raise VParseError('%s declared twice in the testbench' % n)
         tb[k + 's'][n] = w
